@@ -82,8 +82,76 @@ def main(tier):
                       '' if ok else 'the pivot `%s` is inverted at %s without a dominating precondition(!math::is_zero(%s))' % (e, f.where(asg), e))
     rule_profile(ck, units)
     rule_lu_order(ck, units)
+    rule_narrowing(ck, units)
     ck.assumptions += ['exactness of LU / inverse / QR / static-matrix algebra and Cuthill-McKee being a permutation are not decided (numerical / combinatorial)']
     return ck.finish()
+
+
+INT_SIZE = {'bool': 1, 'char': 1, 'signed char': 1, 'unsigned char': 1, 'short': 2, 'unsigned short': 2, 'int': 4, 'unsigned int': 4,
+            'long': 8, 'unsigned long': 8, 'long long': 8, 'unsigned long long': 8}
+
+
+def _int_size(u, f, e, depth=0):
+    """size in bytes of the integer type of expression e (usual arithmetic conversions), None when unknown / not an integer"""
+    e0 = e
+    e = unwrap(e)
+    if e is None or depth > 6:
+        return None
+    if e0 is not e and e0.get('k') == 'cast' and e0.get('explicit'):
+        return None
+    if e['k'] == 'ref':
+        t = u.type(f.decl(e['d']).get('ct')).replace('const ', '').replace('&', '').strip()
+        return INT_SIZE.get(t)
+    if e['k'] in ('idx', 'mem', 'un', 'opcall') and e.get('ty') is not None:
+        t = u.type(e['ty']).replace('const ', '').replace('&', '').strip()
+        return INT_SIZE.get(t)
+    if e['k'] == 'bin' and e['op'] in ('+', '-', '*', '/', '%'):
+        a, b = _int_size(u, f, e['x'], depth + 1), _int_size(u, f, e['y'], depth + 1)
+        if a is None and b is None:
+            return None
+        return max(a or 4, b or 4, 4)
+    if e['k'] == 'lit':
+        return None
+    return None
+
+
+FILES_C16 = ('amgcl/reorder/', 'amgcl/solver/skyline_lu.hpp', 'amgcl/detail/qr.hpp', 'amgcl/detail/inverse.hpp')
+
+
+def rule_narrowing(ck, units, floor=6):
+    """no-narrowing-store: the work arrays of the reordering / direct kernels (local containers of the function) hold indices, levels and
+    degrees that range up to the matrix size; a store of an integer expression into a local array whose element type is narrower than
+    the type of the expression silently wraps for large inputs (level sets beyond 127 in a char array ...).  Stores of compile-time
+    constants and stores through parameters (element type chosen by the caller) are not concerned."""
+    ck.rule('no-narrowing-store', 'reordering and direct kernels: no store of a non-constant integer expression into an element of a LOCAL array with a narrower integer element type', floor)
+    seen = set()
+    for u in units.values():
+        for f in u.funcs:
+            if f.body is None or not f.rel().startswith(FILES_C16) or (f.file, f.line) in seen:
+                continue
+            seen.add((f.file, f.line))
+            k = 0
+            for n in sorted(f.nodes.values(), key=lambda t: t['i']):
+                if not (n['k'] in ('bin', 'opcall') and n.get('op') == '=' and n.get('x') is not None and n.get('y') is not None):
+                    continue
+                x = unwrap(n['x'])
+                if x is None or x['k'] not in ('idx', 'opcall') or x.get('ty') is None:
+                    continue
+                et = u.type(x['ty']).replace('const ', '').replace('&', '').strip()
+                if et not in INT_SIZE:
+                    continue
+                ap = ir.access_path(x)
+                if ap is None or ap[0] != 'var' or f.decl(ap[1]).get('k') != 'local' or f.decl(ap[1]).get('ref'):
+                    continue
+                y = unwrap(n['y'])
+                if y is None or y.get('cv') is not None or y['k'] == 'lit':
+                    continue
+                k += 1
+                sz = _int_size(u, f, n['y'])
+                ok = sz is None or sz <= INT_SIZE[et]
+                ck.ob('no-narrowing-store', '%s|%s#%d' % ('::'.join(f.q.split('::')[-2:]), f.decl(ap[1])['n'], k), f.where(n), ok, '' if ok else
+                      '`%s` at %s stores a %d-byte integer into an element of type %s of the local array `%s`: values beyond its range wrap' % (
+                          show(n)[:60], f.where(n), sz, et, f.decl(ap[1])['n']))
 
 
 def rule_lu_order(ck, units):
